@@ -204,7 +204,7 @@ func c09Split(t *rapid.T, r *rep.R) bool {
 	prog, ref, two := sp.prog, sp.ref, sp.two
 	srcs := ts.Sources(prog)
 	// the module semantics of the reference interpreter must agree with the single-file run (self-check of the harness)
-	ref2, err2 := refRun(prog, 3000, nil, nil)
+	ref2, err2 := refRun(prog, 8000, nil, nil) // the split program runs a few more statements than the original (library counters, prints)
 	if err2 != nil || ref2.Stdout != ref.Stdout || ref2.Status != ref.Status {
 		r.HarnessError("split program and original disagree in the reference interpreter: %v\n%s", err2, mainSource(srcs, "main.tsh"))
 		t.Skip("harness")
